@@ -344,3 +344,17 @@ PROPS["C20"] = dict(
     rule="a case is (signature or built-in, call style, argument-kind vector); every case is "
          "non-trivial; distinct by program text and context",
 )
+
+PROPS["C07"] = dict(
+    streams=["C07"],
+    compare=cmp_eval,
+    classify=classify_logs,
+    gate_imports=EVAL_GATE + "From Cel.Proofs Require Import NoCrash OrderProofs.\nOpen Scope nat_scope.",
+    exhaustive=False,
+    rule="a case is a program in which every leaf and (about half of) the calls are wrapped by a "
+         "logging host function with a unique id, so the ordered log shows order and multiplicity of "
+         "every evaluation; non-trivial when some non-operator call has a logged argument; nested "
+         "chains f(f(...f(x))) up to depth 14 (thorough: 22), function and receiver style, make the "
+         "log length observable (it is the depth; the defect fixed earlier made it 2^depth)",
+    assumptions=["invocation counts stand in for running time"],
+)
